@@ -699,7 +699,9 @@ func c09JSONKVs(kvs []c09KV) [][2]string {
 
 // ---- one observation = one case ----
 
-func c09Observe(co *caseOut, s *c09Stack, in c09Input, kind string) {
+// c09Observe makes one observation and records it as a case; it returns the store-level writes a re-entrant consumer made
+// (they become part of the history that later cases carry)
+func c09Observe(co *caseOut, s *c09Stack, in c09Input, kind string) (side []c09Op) {
 	bk := c09BackendNo[in.Backend]
 	q := in.Q
 	switch kind {
@@ -749,7 +751,17 @@ func c09Observe(co *caseOut, s *c09Stack, in c09Input, kind string) {
 		co.add(kind, level, level != "absent", in, impl,
 			fmt.Sprintf("CGet %d %s %s %s", bk, c09CoqOps(in.Ops), coqBytes(k), coqOpt(coqBytes(v), found)))
 	case "seek":
-		res, p := c09Seek(s, q)
+		res, sd, p := c09SeekRe(s, q)
+		side = sd
+		defer func() { // the consumer's writes go into the top layer (shadow); the oracle below still sees the state before
+			for _, o := range sd {
+				if o.T == "put" {
+					s.sh[len(s.sh)-1][string(unhx(o.K))] = unhx(o.V)
+				} else {
+					s.sh[len(s.sh)-1][string(unhx(o.K))] = nil
+				}
+			}
+		}()
 		if p != "" {
 			co.violation(kind, "panic: "+p, in, nil)
 			return
@@ -761,7 +773,7 @@ func c09Observe(co *caseOut, s *c09Stack, in c09Input, kind string) {
 			if q.Lim != 0 {
 				// an early-stopped answer is labelled by the deviation of the full answer it is a prefix of
 				q0 := q
-				q0.Lim = 0
+				q0.Lim, q0.Re = 0, 0
 				res0, p0 := c09Seek(s, q0)
 				if p0 == "" && len(res0) >= len(res) && c09SameKVs(res0[:len(res)], res) && (len(res) == q.Lim || len(res) == len(res0)) {
 					if d0 := c09Diag(s, q0, res0); d0 != nil {
@@ -771,7 +783,9 @@ func c09Observe(co *caseOut, s *c09Stack, in c09Input, kind string) {
 			}
 			if s.ldb != nil { // does the deviation heal when the LevelDB handle is reopened? (finding F51)
 				if err := s.reopen(); err == nil {
-					if res2, p2 := c09Seek(s, q); p2 == "" && c09Diag(s, q, res2) == nil {
+					q2 := q
+					q2.Re = 0
+					if res2, p2 := c09Seek(s, q2); p2 == "" && c09Diag(s, q, res2) == nil {
 						d = []string{"leveldb-invisible-until-reopen"}
 					}
 				}
@@ -791,6 +805,9 @@ func c09Observe(co *caseOut, s *c09Stack, in c09Input, kind string) {
 			lim = "-lim"
 		}
 		tag := fmt.Sprintf("a%d-%s%s-d%d%s-L%d", q.API, dirs, st, min(q.Depth, 2), lim, min(hit, 3))
+		if q.Re != 0 && q.API >= 3 {
+			tag += "-re"
+		}
 		c09PerBackend[in.Backend]++
 		co.add(kind, tag, hit >= 2, in, impl,
 			fmt.Sprintf("CSeek %d %s %d %d (R %s %s %s %d) %d %s", bk, c09CoqOps(in.Ops), q.API, q.ID,
@@ -798,6 +815,7 @@ func c09Observe(co *caseOut, s *c09Stack, in c09Input, kind string) {
 	default:
 		panic("unknown kind " + kind)
 	}
+	return side
 }
 
 // ---- generator ----
@@ -939,6 +957,66 @@ func c09GenQuery(r *rng, pool [][]byte, depthMax int) c09Query {
 	}
 	q.Start = hx(start)
 	q.Cut = q.API >= 2
+	if q.API >= 3 && r.chance(50) {
+		q.Re = 1 + r.intn(31)
+	}
+	return q
+}
+
+// ---- dao-level scans whose consumer re-enters the dao ----
+
+var c09DaoHdr = []byte{0x70, 0x70, 0x70, 0x70, 0x70} // StoragePrefix + LE32(c09ContractID)
+
+// keys of one contract, prefixes and extensions of one another
+func c09DaoPool(r *rng) [][]byte {
+	var pool [][]byte
+	seen := map[string]bool{}
+	for tries := 0; len(pool) < 6+r.intn(4) && tries < 100; tries++ {
+		k := append(append([]byte{}, c09DaoHdr...), pick(r, []byte{0x70, 0x80}))
+		k = append(k, c09RandBody(r, 3)...)
+		if !seen[string(k)] {
+			seen[string(k)] = true
+			pool = append(pool, k)
+		}
+	}
+	return pool
+}
+
+// several items of the contract flushed to the backend, then 1..3 nested private (or wrapped) layers with more writes
+func c09GenDaoHistory(r *rng, pool [][]byte) []c09Op {
+	var ops []c09Op
+	v := 0
+	put := func() {
+		v++
+		ops = append(ops, c09Op{T: "put", K: hx(pick(r, pool)), V: hx([]byte{byte(v)})})
+	}
+	for i := 0; i < 3+r.intn(4); i++ {
+		put()
+	}
+	ops = append(ops, c09Op{T: "persist"})
+	for d := 0; d < 1+r.intn(3); d++ {
+		ops = append(ops, c09Op{T: "wrap", Priv: r.chance(75)})
+		for i := 0; i < r.intn(3); i++ {
+			if r.chance(75) {
+				put()
+			} else {
+				ops = append(ops, c09Op{T: "del", K: hx(pick(r, pool))})
+			}
+		}
+	}
+	return ops
+}
+
+func c09GenDaoQuery(r *rng, pool [][]byte) c09Query {
+	k := pick(r, pool)[5:]
+	q := c09Query{API: pick(r, []int{3, 3, 3, 4, 4, 5, 6}), ID: c09ContractID, Bw: r.chance(50), Cut: true, Re: 1 + r.intn(31)}
+	q.Prefix = hx(k[:r.intn(min(2, len(k))+1)])
+	if q.API <= 4 && r.chance(35) {
+		q.Start = hx(pick(r, [][]byte{{0x70}, {0x80}, {0x00}, {0x80, 0x00}}))
+	}
+	if r.chance(15) {
+		q.Lim = 1 + r.intn(2)
+	}
 	return q
 }
 
@@ -1194,21 +1272,28 @@ func runC09(args []string) error {
 		if h%6 >= 3 && h%6-3 == (h/6)%3 { // one history in six, rotating over the backends: aimed at SeekGC
 			ops = c09GenGcHistory(r, pool)
 		}
+		daoHist := h%6 < 3 && h%6 == (h/6+1)%3 // another one in six: dao-level scans with re-entrant consumers
+		if daoHist {
+			pool = c09DaoPool(r)
+			ops = c09GenDaoHistory(r, pool)
+		}
 		s, err := c09NewStack(backend, dir, h)
 		if err != nil {
 			return err
 		}
 		nextObs := r.intn(4)
+		var executed []c09Op // the history as executed: the generated ops plus the writes of re-entrant consumers
 		for i, o := range ops {
 			if err := s.apply(o); err != nil {
 				s.close(dir, backend, h)
 				return fmt.Errorf("history %d op %d: %w", h, i, err)
 			}
+			executed = append(executed, o)
 			if i < nextObs && i != len(ops)-1 && !strings.HasPrefix(o.T, "gc") { // a SeekGC is always looked at right away
 				continue
 			}
 			nextObs = i + 1 + r.intn(6)
-			prefixOps := append([]c09Op{}, ops[:i+1]...)
+			prefixOps := append([]c09Op{}, executed...)
 			for g := 0; g < 3; g++ {
 				key := hx(pick(r, pool))
 				if r.chance(60) { // a key the history has written
@@ -1222,7 +1307,14 @@ func runC09(args []string) error {
 				c09Observe(co, s, c09Input{Backend: backend, Ops: prefixOps, Q: c09Query{Key: key}}, "get")
 			}
 			for g := 0; g < 5; g++ {
-				c09Observe(co, s, c09Input{Backend: backend, Ops: prefixOps, Q: c09GenQuery(r, pool, len(s.layers))}, "seek")
+				q := c09GenQuery(r, pool, len(s.layers))
+				if daoHist && r.chance(70) {
+					q = c09GenDaoQuery(r, pool)
+				}
+				if side := c09Observe(co, s, c09Input{Backend: backend, Ops: prefixOps, Q: q}, "seek"); len(side) > 0 {
+					executed = append(executed, side...)
+					prefixOps = append([]c09Op{}, executed...)
+				}
 			}
 		}
 		s.close(dir, backend, h)
